@@ -518,6 +518,50 @@ impl SocketTable {
     }
 }
 
+#[cfg(feature = "verif-hooks")]
+impl Fd {
+    /// Raw table id (verification harness only).
+    pub fn verif_raw(&self) -> u64 {
+        self.0
+    }
+}
+
+#[cfg(feature = "verif-hooks")]
+impl SocketTable {
+    /// (#sockets, #binding keys, #fds listed under binding keys,
+    /// #connection-index entries). Read-only.
+    pub fn verif_counts(&self) -> (usize, usize, usize, usize) {
+        (
+            self.sockets.len(),
+            self.bindings.len(),
+            self.bindings.values().map(Vec::len).sum(),
+            self.connections.len(),
+        )
+    }
+
+    /// Every binding-index entry as (addr, port, fds), in index order.
+    pub fn verif_bindings(&self) -> Vec<(SocketAddr, Vec<u64>)> {
+        self.bindings
+            .iter()
+            .filter(|(k, _)| k.ty == Type::Stream)
+            .map(|(k, v)| {
+                (
+                    SocketAddr::new(k.local_addr, k.local_port),
+                    v.iter().map(|f| f.0).collect(),
+                )
+            })
+            .collect()
+    }
+
+    /// Every connection-index entry as (local, remote, fd), in index order.
+    pub fn verif_connections(&self) -> Vec<(SocketAddr, SocketAddr, u64)> {
+        self.connections
+            .iter()
+            .map(|((l, r), f)| (*l, *r, f.0))
+            .collect()
+    }
+}
+
 impl Default for SocketTable {
     fn default() -> Self {
         Self::new()
